@@ -2,6 +2,8 @@ package main
 
 import (
 	"fmt"
+	"os"
+	"strconv"
 	"strings"
 
 	"verif/family"
@@ -66,11 +68,22 @@ func validateEvery(c *Ctx) int {
 	return 4
 }
 
+// maxN: input lengths 0..N are explored with every rune symbolic. Quick N = 5; thorough N = 6
+// for the properties that run several parsers per path (C02, C07, C13) and 7 for the others
+// (nFor adds one rune on the curated shapes and on grammars with few terminal classes).
 func maxN(c *Ctx) int {
-	if c.Quick() {
-		return 4
+	if v := os.Getenv("VERIF_N"); v != "" { // calibration only
+		n, _ := strconv.Atoi(v)
+		return n
 	}
-	return 6
+	if c.Quick() {
+		return 5
+	}
+	switch c.Prop {
+	case "C02", "C07", "C13":
+		return 6
+	}
+	return 7
 }
 
 var stdAssumptions = []string{
@@ -101,9 +114,9 @@ func nFor(c *Ctx, gg *GenGrammar, n int) int {
 // 2^8 (both tiers) and up to 2^16 (thorough, grammars whose token count does not grow), each with
 // no hole, holes at both ends, at the last two runes, and in the middle.
 func longCases(c *Ctx, g *family.Grammar, limit int) [][3]int {
-	ls := []int{17, 255, 256}
+	ls := []int{17, 255, 256, 260}
 	if !c.Quick() {
-		ls = []int{17, 33, 64, 254, 255, 256, 257, 300, 1000}
+		ls = []int{17, 33, 64, 254, 255, 256, 257, 260, 300, 1000}
 		if g.Flat {
 			ls = append(ls, 65535, 65536)
 		}
@@ -143,7 +156,7 @@ func lenJobs(entry string, maxN int, extra ...int) []*Job {
 func stdBounds(c *Ctx, n int) {
 	c.Bounds["input_length_note"] = "one rune more (N+1) on the curated shapes and the end-of-input lookahead layer (both tiers) and, in the thorough tier, on grammars with <= 3 terminal classes"
 	c.Bounds["input_length"] = fmt.Sprintf("all lengths 0..%d runes; each rune any Unicode scalar value (0..0x10FFFF minus surrogates), i.e. every Go string whose decoding has that many runes", n)
-	c.Bounds["long_inputs"] = "long-input layer (10 loop/recursion grammars): lengths 17, 255, 256 (quick) and 17..1000, and 65535/65536 for grammars with a constant number of tokens (thorough); all runes a concrete filler cycle except two arbitrary runes at the ends / last two / middle positions"
+	c.Bounds["long_inputs"] = "long-input layer (11 loop/recursion grammars, one of them with 260 rules): lengths 17, 255, 256, 260 (quick) and 17..1000, and 65535/65536 for grammars with a constant number of tokens (thorough); all runes a concrete filler cycle except two arbitrary runes at the ends / last two / middle positions"
 	c.Bounds["outside"] = "longer inputs; grammars outside the enumerated family; semantic predicates with side effects"
 	c.Assumptions = append(c.Assumptions, stdAssumptions...)
 }
